@@ -120,15 +120,15 @@ func (w *World) fullPrelude() string {
 }
 
 type Report struct {
-	Repo        string        `json:"repo"`
-	Functions   []FnReport    `json:"functions"`
-	Obligations []OblReport   `json:"obligations"`
-	Errors      []string      `json:"errors"`
-	Notes       []string      `json:"notes"`
-	Unused      []string      `json:"unused_blocks"`
-	WallS       float64       `json:"wall_s"`
-	SolverS     float64       `json:"solver_s"`
-	Assumed     []string      `json:"assumed"`
+	Repo        string      `json:"repo"`
+	Functions   []FnReport  `json:"functions"`
+	Obligations []OblReport `json:"obligations"`
+	Errors      []string    `json:"errors"`
+	Notes       []string    `json:"notes"`
+	Unused      []string    `json:"unused_blocks"`
+	WallS       float64     `json:"wall_s"`
+	SolverS     float64     `json:"solver_s"`
+	Assumed     []string    `json:"assumed"`
 }
 
 type FnReport struct {
@@ -142,19 +142,19 @@ type FnReport struct {
 }
 
 type OblReport struct {
-	Name     string   `json:"name"`
-	Kind     string   `json:"kind"`
-	Fn       string   `json:"fn"`
-	Label    string   `json:"label,omitempty"`
-	Pos      string   `json:"pos,omitempty"`
-	Props    []string `json:"props,omitempty"`
-	Status   string   `json:"status"`
-	Solver   string   `json:"solver,omitempty"`
-	Time     float64  `json:"time_s"`
-	MustFail bool     `json:"must_fail,omitempty"`
+	Name     string            `json:"name"`
+	Kind     string            `json:"kind"`
+	Fn       string            `json:"fn"`
+	Label    string            `json:"label,omitempty"`
+	Pos      string            `json:"pos,omitempty"`
+	Props    []string          `json:"props,omitempty"`
+	Status   string            `json:"status"`
+	Solver   string            `json:"solver,omitempty"`
+	Time     float64           `json:"time_s"`
+	MustFail bool              `json:"must_fail,omitempty"`
 	Values   map[string]string `json:"values,omitempty"`
-	Output   string   `json:"output,omitempty"`
-	Trail    string   `json:"trail,omitempty"`
+	Output   string            `json:"output,omitempty"`
+	Trail    string            `json:"trail,omitempty"`
 }
 
 func main() {
@@ -207,7 +207,7 @@ func main() {
 	rep := &Report{Repo: *repo}
 	var all []*Obligation
 	for _, blk := range w.specs.Order {
-		if blk.Kind != "func" || blk.Inline {
+		if (blk.Kind != "func" && blk.Kind != "cases") || blk.Inline {
 			continue
 		}
 		ghostOnly := false
